@@ -375,8 +375,8 @@ Proof.
   intros d sc mi ic r HI Hd. unfold wparse.
   apply (parse_total preader pr_pos pr_len pr_readbyte pr_readn pr_readbuf pr_readwire pr_skip pr_range pr_delegate p_RI p_rem); auto.
   - intros [b|w] H; cbn [pr_pos]; [eauto|]. rewrite (wr_pos_ok w H). eauto.
-  - intros [b|w] H; cbn [pr_len p_rem]; [apply b_spec_len; exact I|].
-    unfold wr_len, w_rem. fold (total (wsegs w)). lia.
+  - intros [b|w] p H Hp; cbn [pr_len p_rem pr_pos] in *; [apply b_spec_len; [exact I|exact Hp]|].
+    rewrite (wr_pos_ok w H) in Hp. inversion Hp; subst. unfold wr_len, w_rem. fold (total (wsegs w)). pose proof (wP_le w H). lia.
   - intros [b|w] H; cbn [pr_readbyte]; [apply lift_b_spec, b_spec_readbyte; exact I|apply lift_w_spec, w_spec_readbyte; exact H].
   - intros [b|w] n H; cbn [pr_readn]; [apply lift_b_spec, b_spec_readn; exact I|apply lift_w_spec, w_spec_readn; exact H].
   - intros [b|w] l H; cbn [pr_readbuf]; [apply lift_b_spec, b_spec_readbuf; exact I|apply lift_w_spec, w_spec_readbuf; exact H].
